@@ -42,7 +42,7 @@ def shapes(tier):
     fx = 'BHLITD' if tier == 'quick' else 'BbHhLlIJQTtFDEZ'
     out = []
     for n in (1, 2, 3):
-        for t in itertools.product(fx if n < 3 or tier == 'thorough' else 'BHLTD', repeat=n):
+        for t in itertools.product(fx if n < 3 else ('BHLTD' if tier == 'quick' else 'BbHLlITD'), repeat=n):
             out.append(''.join(t))
     if tier == 'thorough':
         for t in itertools.product('BHLTD', repeat=4):
@@ -200,6 +200,8 @@ def check_spec(spec, st, tier, only=None):
         else:
             syms = [0, 1, 2, 0xff, 0x41]
             L = 3 if tier == 'quick' else 5
+            if tier == 'thorough' and ('names' in spec or len(spec.get('shape', '')) >= 3):
+                L = 4       # longer declarations: the long ramp inputs below reach their later fields
             if 'names' in spec:
                 P = alphabet.make_decl(spec['names'], spec.get('opts'), spec.get('wrapper', 'a'))
                 syms = alphabet.byte_alphabet(P, common.SEED)[:5]
